@@ -134,6 +134,14 @@ pub fn check(v: &View) -> Vec<Violation> {
             if starts.len() > 1 || (cbs.iter().any(|c| c.cb == Cb::Stopped) && cbs.last().is_some_and(|c| c.cb != Cb::Stopped)) {
                 out.push(violation(P, "non-restartable-was-restarted", "", format!("actor {aidx}: non-restartable actor shows {} started callbacks / a stopped callback in mid-life", starts.len())));
             }
+            // "ignores the request" includes its timers: they keep their schedule
+            if !reqs.is_empty() {
+                for x in super::c10::check(v) {
+                    if matches!(x.rule.as_str(), "interval-ticks-missing" | "one-shot-never-fired" | "interval-off-schedule" | "interval-skipped-or-repeated") {
+                        out.push(violation(P, "ignored-restart-affected-timers", &x.rule, x.detail));
+                    }
+                }
+            }
             continue;
         }
         // boundary k (0-based) = the Stopped callback preceding starts[k+1], and starts[k+1]
